@@ -300,7 +300,10 @@ func genInjectSuite(r *hx.R, tier, scratch, prop string) (*hx.Suite, error) {
 	hosts, mknodOK := makeHostNodes(r, devDir)
 	richHosts = hosts
 	defer func() { richHosts = nil }()
-	n := 160
+	n := 240
+	if prop == "C14" {
+		n = 180 // histories: several injections, images and write-backs per case
+	}
 	if tier == "thorough" {
 		n = 1600
 	}
